@@ -332,7 +332,10 @@ fn scale_threshold_f64(d: &mut Draw) -> Outcome {
 /// Decomposed transform inverts to the matrix of its inverse
 fn matrix_small_det_f64(d: &mut Draw) -> Outcome {
     let sign = if d.bool() { 1.0 } else { -1.0 };
-    let (scale, cls): (f64, &'static str) = match d.int(0, 4) {
+    let (scale, cls): (f64, &'static str) = match d.int(0, 5) {
+        // s^3 between 2^-1050 and 2^-1026: a subnormal determinant - tiny, but not zero, and the inverse (scale 2^342 ..
+        // 2^350) is an ordinary matrix
+        5 => (sign * (2.0f64).powi(-(d.int(342, 350) as i32)), "subnormal-determinant"),
         0 => (sign * d.f64_log(1e-50, 1e-6), "minute"),
         1 => (sign * d.f64_log(1e-6, 1e-3), "small"),
         2 => (sign * 1e-6 * (1.0 + d.f64_log(1e-9, 1.0)), "just-above-1e-6"),
@@ -345,7 +348,8 @@ fn matrix_small_det_f64(d: &mut Draw) -> Outcome {
     d.note("scale", &scale);
     d.note("rot", &u);
     d.note("disp,p,v", &(disp, p, v));
-    let e = f64::EPSILON;
+    // (a determinant down there keeps 52 - (-1022 - log2 det) of its bits, and the inverse inherits that)
+    let e = if cls == "subnormal-determinant" { f64::EPSILON + 64.0 * (2.0f64).powi(-1074) / scale.abs().powi(3) / 1024.0 } else { f64::EPSILON };
     let dec = Decomposed { scale, rot: mk_q(&u), disp };
     let m4 = Matrix4::from(dec);
     let m3 = Matrix3::from(mk_q(&u)) * scale;
@@ -494,7 +498,7 @@ pub fn property() -> Property {
     add!("scale_threshold-f64", "f64", scale_threshold_f64, 10000, 500_000, 64,
         &[("zero", 100), ("negligible", 100), ("just-above", 50), ("small", 50), ("huge", 50), ("ordinary", 150)], "every generated transform; scale classes zero / negligible / just above 1e-6 / small / ordinary required");
     add!("matrix_small_determinant-f64", "f64", matrix_small_det_f64, 8000, 400_000, 64,
-        &[("minute", 100), ("small", 100), ("just-above-1e-6", 100), ("ordinary", 200)], "every generated transform; determinant classes minute / small / just above the Decomposed threshold / ordinary required");
+        &[("subnormal-determinant", 80), ("minute", 100), ("small", 100), ("just-above-1e-6", 100), ("ordinary", 150)], "every generated transform; determinant classes subnormal / minute / small / just above the Decomposed threshold / ordinary required");
     Property {
         id: "C08",
         title: "Transforms compose, invert and convert to matrices consistently",
